@@ -148,7 +148,7 @@ def plan(tier):
         _SKIP.add("dup")  # the whole builder is the signature of the listed known finding (two fields with one element name)
     names = [n for n in c01._QUICK_SPECS if n not in _SKIP]
     if tier == "quick":
-        slow = {"unions_str": 1, "compound": 1}
+        slow = {"unions_str": 1, "compound": 1, "unionmodels": 1}
         for n, name in enumerate(names):
             jobs.append(Job("drt", {"spec": name, "filter": n % 2, "top": "object", "slen": slow.get(name, 2), "imax": 100}, 240, 30))
             if n % 3 == 0:
